@@ -446,6 +446,17 @@ impl Visitor<Diagnostic> for LibraryRenderer {
         self.visit_struct_initial_value_assignment_kind(&node.init)
     }
 
+    fn visit_simple_declaration(
+        &mut self,
+        node: &SimpleDeclaration,
+    ) -> Result<Self::Value, Diagnostic> {
+        self.visit_type(&node.type_name)?;
+
+        self.write_ws(":");
+
+        self.visit_initial_value_assignment_kind(&node.spec_and_init)
+    }
+
     fn visit_array_declaration(
         &mut self,
         node: &ArrayDeclaration,
